@@ -1,6 +1,10 @@
 (* C13/Props.v — property theorems only: each is closed by [exact]/[apply] of a lemma proved
    in the proof files and followed by Print Assumptions.  64-bit values are uint64 bit
    patterns (N < 2^64); int64 theorems are stated over Z through of_int64/to_int64.
+   The model functions are PURE functions of the values: no destination buffer, no encoder
+   state survives between two encodes.  That the real encoders have the same property
+   (dirty/recycled destination buffers, Reset+reuse, the WAL's pooled buffers) is part of the
+   correspondence run: every such variant must produce exactly the model's bytes.
    "iter" = the streaming encoder/decoder types of tsm1 (TimeEncoder, IntegerEncoder, ...),
    "batch" = the *ArrayEncodeAll / *ArrayDecodeAll functions. *)
 From Verif Require Import Lib.Bytes Lib.Varint C13.Model C13.Spec C13.Proofs.
